@@ -33,6 +33,8 @@ def concretise(c):
         return docgen.text_of(base)
     if k == "multi":
         return multi_document(c["faults"])
+    if k == "value":
+        return value_document(c)
     if k == "skip":
         return skip_documents(c)[1]
     e = c["e"]
@@ -129,6 +131,43 @@ def concretise(c):
                     break
         return docgen.text_of(lines)
     raise ValueError(f"unknown case kind {k}")
+
+
+VALUE_HOSTS = {"int": ("ECU_ADDRESS_EXTENSION", 0), "uint": ("ALIGNMENT_BYTE", 0), "long": ("ECU_CALIBRATION_OFFSET", 0),
+               "ulong": ("ADDR_EPK", 0), "uint64": ("BIT_MASK", 0), "float": ("AXIS_PTS", 5), "string": ("ANNOTATION_LABEL", 0),
+               "ident": ("AR_PROTOTYPE_OF", 0)}
+
+
+def literal(ptype, cls):
+    """concrete text of a value class"""
+    if ptype in a2ldoc.INT_BITS:
+        bits, signed = a2ldoc.INT_BITS[ptype]
+        lo, hi = (-(2 ** (bits - 1)), 2 ** (bits - 1) - 1) if signed else (0, 2 ** bits - 1)
+        return {"min-1": str(lo - 1), "min": str(lo), "-1": "-1", "0": "0", "max": str(hi), "max+1": str(hi + 1), "hex0": "0x0",
+                "hexmax": hex(2 ** bits - 1), "hexmax+1": hex(2 ** bits), "hexu64max": "0xFFFFFFFFFFFFFFFF", "hexover": "0x10000000000000000",
+                "HEXPREFIX": "0X1f", "plus": "+5"}[cls]
+    if ptype == "float":
+        return {"0": "0", "-0.0": "-0.0", "0.1": "0.1", "1e10": "1e10", "1e-4": "1e-4", "123456000000": "123456000000", "5e-324": "5e-324",
+                "1e999": "1e999", "-1e999": "-1e999", "hex": "0x10", "dot1": ".5", "1dot": "1.", "exp+": "1.5E+3", "16777217": "16777217",
+                "0.30000000000000004": "0.30000000000000004"}[cls]
+    if ptype == "string":
+        return {"empty": '""', "ascii": '"plain text"', "esc_quote": r'"a \"quoted\" word"', "dbl_quote": '"a ""doubled"" quote"',
+                "esc_apos": r'"it\'s"', "esc_backslash": r'"back\\slash"', "esc_n": r'"line\nbreak"', "esc_r": r'"carriage\rreturn"',
+                "esc_t": r'"tab\tstop"', "backslash_last": r'"ends with backslash\\"', "nonbmp": '"smile \U0001F600 face"',
+                "latin": '"caf\u00e9 \u20ac"', "slashes": '"a // b /* c */ /begin"', "apos_raw": '"it\'s raw"', "unknown_escape": r'"a\qb"'}[cls]
+    return {"a": "a", "dotted": "a.b.c", "underscore": "_x1", "len1024": "a" * 1024, "len1025": "a" * 1025, "digitfirst": "9abc",
+            "brackets": "arr[3].x"}[cls]
+
+
+def value_document(c):
+    e, i = VALUE_HOSTS[c["type"]]
+    lit = literal(c["type"], c["cls"])
+
+    def hook(tag, path, part, default):
+        if tag == e and path == docgen.PATHS[e][:-1] and part == ("param", i):
+            return [lit]
+        return default
+    return docgen.text_of(docgen.document(e, docgen.best_version(e), hook))
 
 
 MEAS = '/begin MEASUREMENT {name} {longid} {dt} NO_COMPU_METHOD 1 1.0 0 255'
